@@ -8,6 +8,7 @@
  *      F <rc> <size | NOFILE> <same 0|1>   flatcc_generate_files with bgen_bfbs=1, file <outdir>/<basename>.bfbs
  *      X twice=<0|1> c_then_bfbs=<1|0|F|G> bfbs_c_bfbs=<..><..>   the binary schema generated again on the same context, and on a second
  *                                          context after / around flatcc_generate_files with every C generator: 1 = same bytes
+ *      O <rc1> <rc2> <size> <same 0|1>     file output through gen_outfile, generated twice over an older larger file of that name
  *      L <prefix value | -> <ok 0|1>       length prefix: present exactly when requested and equal to size - 4
  *      V <verify rc> <error string>        reflection_Schema_verify_as_root on the (un-prefixed) buffer
  *      S objects=<fails>/<n> enums=.. services=.. fields=.. calls=.. values=.. first=<what>
@@ -195,6 +196,14 @@ int main(void)
         r5 = to_buffer(ctx, 0, a, asize, 0);
         printf("B exact=%d:%d larger=%d:%d small1=%d smallhalf=%d zero=%d\n", r1, s1, r2, s2, r3, r4, r5);
 
+        bn = strrchr(path, '/'); bn = bn ? bn + 1 : path;
+        dot = strrchr(bn, '.');
+        snprintf(base, sizeof(base), "%.*s", (int)(dot ? dot - bn : (long)strlen(bn)), bn);
+        snprintf(fpath, sizeof(fpath), "%s/%s.bfbs", outdir, base);
+        { /* an older, LARGER output of the same name already exists: the new file must replace it, not extend it */
+            FILE *old = fopen(fpath, "wb"); size_t k;
+            if (old) { for (k = 0; k < asize + 1000; ++k) fputc(0x5a, old); fclose(old); }
+        }
         grc = flatcc_generate_files(ctx);
         bn = strrchr(path, '/'); bn = bn ? bn + 1 : path;
         dot = strrchr(bn, '.');
@@ -213,6 +222,23 @@ int main(void)
             free(a2);
             same_context_sequences(path, incdir, outdir, qualify, prefix, a, asize, seq);
             printf("X twice=%d c_then_bfbs=%c bfbs_c_bfbs=%c%c\n", twice, seq[0], seq[2], seq[3]);
+        }
+        {
+            /* the same through the gen_outfile name (--outfile), written twice over an older larger file */
+            flatcc_options_t o; flatcc_context_t c; const char *ip[1]; char opath[1400]; uint8_t *ob = 0; size_t osize = 0; int r1 = -9, r2 = -9, osame = 0; FILE *old; size_t k;
+            flatcc_init_options(&o);
+            o.bgen_bfbs = 1; o.bgen_qualify_names = qualify; o.bgen_length_prefix = prefix; o.gen_outfile = "cat.bfbs";
+            ip[0] = incdir; o.inpaths = ip; o.inpath_count = 1; o.outpath = outprefix;
+            snprintf(opath, sizeof(opath), "%s/cat.bfbs", outdir);
+            old = fopen(opath, "wb");
+            if (old) { for (k = 0; k < asize + 777; ++k) fputc(0x5a, old); fclose(old); }
+            c = flatcc_create_context(&o, path, on_error, 0);
+            if (c && !flatcc_parse_file(c, path)) { r1 = flatcc_generate_files(c); r2 = flatcc_generate_files(c); }
+            if (c) flatcc_destroy_context(c);
+            ob = read_file(opath, &osize);
+            osame = ob && osize == asize && memcmp(ob, a, asize) == 0;
+            printf("O %d %d %zu %d\n", r1, r2, ob ? osize : (size_t)0, osame);
+            free(ob); unlink(opath);
         }
         body = a; bodysize = asize;
         if (prefix) {
